@@ -18,6 +18,7 @@ import Proofs.NNLSLoop
 import Proofs.NNLSRecon
 import Proofs.NNLSTerm
 import Proofs.NNLSDescent
+import Proofs.NNLSCount
 import Mathlib.Algebra.Order.Field.Rat
 import Mathlib.Tactic.NormNum
 import Mathlib.Tactic.IntervalCases
@@ -258,6 +259,56 @@ theorem b_outer_loop_objective_decreases (solve : List (List α) → List α →
   exact outerLoop_objective solve hc n A b hsym hpd hb maxIter _ st0 d ex lc lc2
     (initState_inv solve hc n A b hsym.1 hsym.2.1 0 pInit hp st0 h0) h
 
+/-- (b, termination and total correctness in exact arithmetic) For symmetric positive definite `A`,
+    tolerance 0, linear solves meeting the contract, cold start or any duplicate-free in-range warm start,
+    and `2^n + n ≤ maxIter` — so that the code's two iteration guards (`loop_count > maxIter`,
+    `loop_count2 > maxIter`) cannot fire before the argument below is exhausted (for the code's constant
+    10000 this is `n ≤ 13`; the model's own recursion budget is `maxIter + 2 > 2^n`):
+    `fnnls_cholesky` leaves its loop through the MAIN exit — never through the fuel outcome, the iteration
+    guards or the `no_update` break — and the vector it returns satisfies the exact KKT conditions and is a
+    global minimiser of `½ xᵀAx − bᵀx` over `x ≥ 0` (the unique one, `a_minimiser_unique`); the only
+    alternative is that one of the linear solves it requested failed (`solveOn … = none`, which an exact
+    solver does not do on a principal submatrix of a PD matrix — solver completeness is not part of the
+    contract).  Argument: strict descent (`b_outer_step_decreases_objective`) + uniqueness of the
+    stationary point of a face ⇒ the passive sets seen at the loop head are pairwise different ⇒ at most
+    `2^n` iterations; each inner pass removes an index (`b_inner_loop_terminates`) ⇒ at most `2^n + n`
+    inner passes in total; `P` changes in every iteration ⇒ `no_update` stays 0. -/
+theorem b_terminates_exact (solve : List (List α) → List α → Option (List α))
+    (hc : Spec.SolveContract solve) (n : ℕ) (A : List (List α)) (b : List α)
+    (hsym : Spec.IsSymm n A) (hpd : Spec.IsPD n A) (hb : b.length = n)
+    (maxIter : ℕ) (hmax : 2 ^ n + n ≤ maxIter) (pInit : Option (List ℕ))
+    (hp : ∀ idx, pInit = some idx → idx.Nodup ∧ ∀ i, i ∈ idx → i < n) :
+    (∃ d lc lc2, Impl.fnnls solve A b 0 maxIter pInit = .ok d .main lc lc2
+        ∧ d.length = n ∧ Spec.IsKKT A b d 0
+        ∧ ∀ x : List α, x.length = n → Spec.Nonneg x → Spec.qform A b d ≤ Spec.qform A b x)
+    ∨ (Impl.fnnls solve A b 0 maxIter pInit = .err .singular
+        ∧ ∃ idx, Impl.solveOn solve A b idx = none) := by
+  rcases fnnls_exact solve hc n A b hsym hpd hb maxIter hmax pInit hp with ⟨d, lc, lc2, h⟩ | h
+  · left
+    obtain ⟨hd, hk⟩ := b_fnnls_main_exit_kkt solve hc n A b hsym.1 hsym.2.1 hb 0 le_rfl maxIter pInit hp
+      d lc lc2 h
+    exact ⟨d, lc, lc2, h, hd, hk, fun x hx hxn =>
+      a_kkt_is_global_minimum n A b d x hsym (isPSD_of_isPD n A hsym.1 hpd) hb hd hx hk hxn⟩
+  · exact Or.inr h
+
+/-- (b, the same for an explicit recursion budget) from any loop-head state of a run — invariant `OInv`,
+    `visited` = the pairwise different passive sets seen so far, each with a larger objective — the outer
+    loop with `fuel + |visited| > 2^n` ends through the main exit or in a failed solve. -/
+theorem b_outer_loop_terminates_exact (solve : List (List α) → List α → Option (List α))
+    (hc : Spec.SolveContract solve) (n : ℕ) (A : List (List α)) (b : List α)
+    (hsym : Spec.IsSymm n A) (hpd : Spec.IsPD n A) (hb : b.length = n)
+    (maxIter : ℕ) (hmax : 2 ^ n + n ≤ maxIter) (fuel : ℕ) (st : Impl.St α)
+    (visited : List (List Bool)) (ho : OInv n A b 0 st) (hnd : visited.Nodup)
+    (hl : ∀ V, V ∈ visited → V.length = n)
+    (hdesc : ∀ V, V ∈ visited → ∀ x, FaceMin n A b V x → Spec.qform A b st.d < Spec.qform A b x)
+    (hlc : st.loopCount ≤ visited.length)
+    (hlc2 : st.loopCount2 + st.P.count true ≤ st.loopCount + n)
+    (hf : 2 ^ n < fuel + visited.length) :
+    (∃ d lc lc2, Impl.outerLoop solve A b 0 maxIter fuel st = .ok d .main lc lc2)
+      ∨ (Impl.outerLoop solve A b 0 maxIter fuel st = .err .singular
+          ∧ ∃ idx, Impl.solveOn solve A b idx = none) :=
+  outerLoop_exact solve hc n A b hsym hpd hb maxIter hmax fuel st visited ho hnd hl hdesc hlc hlc2 hf
+
 end b
 
 /-! ### (c) the unconstrained solver -/
@@ -470,6 +521,11 @@ example : (match Impl.initState checkedSolve A3 b3 0 none with
 example : (match Impl.fnnls checkedSolve A3 b3 0 10000 none with
     | .ok d .main _ _ => d == [0, 0, 1 / 3] && decide (Spec.qform A3 b3 d = -1 / 6)
     | _ => false) = true := by decide +kernel
+
+/-- `b_terminates_exact` on the witness system: `2^3 + 3 ≤ 10000`, the solver never fails, main exit -/
+example : 2 ^ 3 + 3 ≤ 10000 ∧ (match Impl.fnnls checkedSolve A3 b3 0 10000 (some [0, 2]) with
+    | .ok d .main lc _ => d == [0, 0, 1 / 3] && decide (lc ≤ 2 ^ 3)
+    | _ => false) = true := ⟨by norm_num, by decide +kernel⟩
 
 /-- a state on which the inner-loop guard holds, and the inner loop run with fuel `|P| + 1 = 3` -/
 example : (let st : Impl.St ℚ := { P := [true, false, true], Pin := [0, 2], s := [1 / 5, 0, -1], d := [1, 0, 1],
